@@ -34,18 +34,21 @@ struct Case {
     beeper: bool,
     ay: bool,
     policy: Policy,
+    /// the ULA port the speaker is written through (an even port; the high byte may lie in contended RAM)
+    port: u16,
     evs: Vec<Ev>,
 }
 
 impl Case {
     fn text(&self) -> String {
         format!(
-            "sched m128={} rate={} vol={} beeper={} ay={} policy={} evs={}",
+            "sched m128={} rate={} vol={} beeper={} ay={} port={:04x} policy={} evs={}",
             self.m128 as u8,
             self.rate,
             self.vol,
             self.beeper as u8,
             self.ay as u8,
+            self.port,
             match self.policy {
                 Policy::Always => "always",
                 Policy::Sometimes => "sometimes",
@@ -72,7 +75,7 @@ impl Case {
         if it.next()? != "sched" {
             return None;
         }
-        let mut c = Case { m128: false, rate: 44100, vol: 100, beeper: true, ay: false, policy: Policy::Always, evs: vec![] };
+        let mut c = Case { m128: false, rate: 44100, vol: 100, beeper: true, ay: false, policy: Policy::Always, port: 0x00FE, evs: vec![] };
         for kv in it {
             let (k, v) = kv.split_once('=')?;
             match k {
@@ -81,6 +84,7 @@ impl Case {
                 "vol" => c.vol = v.parse().ok()?,
                 "beeper" => c.beeper = v == "1",
                 "ay" => c.ay = v == "1",
+                "port" => c.port = u16::from_str_radix(v, 16).ok()?,
                 "policy" => {
                     c.policy = match v {
                         "always" => Policy::Always,
@@ -136,6 +140,20 @@ struct Disagreement {
 
 fn dis(kind: Kind, key: &str, at: Option<usize>, what: String, imp: String, exp: String) -> Disagreement {
     Disagreement { kind, key: key.to_string(), what, implementation: imp, expected: exp, at }
+}
+
+/// the ULA delay at frame T-state `t` (the contention table of C04; used here only to know at which T-state of
+/// a contended port cycle the speaker level changes)
+fn ula_delay(m128: bool, t: usize) -> usize {
+    let (t0, line) = if m128 { (14361usize, 228usize) } else { (14335, 224) };
+    if t < t0 {
+        return 0;
+    }
+    let d = t - t0;
+    if d / line >= 192 || d % line >= 128 {
+        return 0;
+    }
+    [6, 5, 4, 3, 2, 1, 0, 0][d % line % 8]
 }
 
 /// `sample_count_for_frame_fraction(frame_pos())` as the code computes it (the f64 part that the Lean
@@ -263,16 +281,19 @@ fn check_case(model: &mut Model, c: &Case, mut rep: Option<&mut Report>) -> Opti
             }
             Ev::Out(v) => {
                 let t0 = e.verif_frame_clocks();
-                if catch_unwind(AssertUnwindSafe(|| e.verif_write_io(0x00FE, *v))).is_err() {
+                if catch_unwind(AssertUnwindSafe(|| e.verif_write_io(c.port, *v))).is_err() {
                     return Some(dis(Kind::SpecViolated, "C19/panic", Some(i), "write_io(0xFE) panicked".into(), "panic".into(), "no panic".into()));
                 }
                 let t1 = e.verif_frame_clocks();
                 let total = if t1 >= t0 { t1 - t0 } else { (t1 + l).saturating_sub(t0) };
-                if !(4..=12).contains(&total) {
-                    return Some(dis(Kind::ModelMismatch, "C19/write-io-length", Some(i), "clocks taken by OUT to 0xFE".into(), format!("{}", total), "4..12 (1 + contention + 2 + 1)".into()));
+                // write_io: [ULA delay if the port's high byte is contended] wait_internal(1); beeper.change_state;
+                // the rest of the port pattern; wait_internal(1). The level changes after the first part.
+                let hi_contended = (0x40..0x80).contains(&(c.port >> 8));
+                let first = 1 + if hi_contended { ula_delay(c.m128, t0 % l) } else { 0 };
+                if !(4..=16).contains(&total) || total < first + 1 {
+                    return Some(dis(Kind::ModelMismatch, "C19/write-io-length", Some(i), "clocks taken by OUT to the ULA port".into(), format!("{}", total), format!("4..16 and at least {} (ULA delay + 1, then the level changes)", first + 1)));
                 }
-                // write_io: wait_internal(1); beeper.change_state; wait_internal(contention + 2); wait_internal(1)
-                waits = vec![1, total - 2, 1];
+                waits = vec![first, total - first - 1, 1];
                 out = Some(*v);
             }
             Ev::Pop(n) => {
@@ -557,7 +578,9 @@ fn gen_case(r: &mut Rng, m128: bool, rate: usize, policy: Policy, frames: usize)
             }
         }
     }
-    Case { m128, rate, vol, beeper, ay, policy, evs }
+    // a third of the schedules write the speaker through a port whose high byte lies in contended RAM
+    let port = *r.pick(&[0x00FEu16, 0xBFFE, 0x7FFE]);
+    Case { m128, rate, vol, beeper, ay, policy, port, evs }
 }
 
 fn shrink(model: &mut Model, c: &Case, key: &str) -> Case {
